@@ -15,6 +15,7 @@ structure St where
   fs : FS := []
   dumped : Bool := false
   atDump : Option FS := none
+  released : Bool := false
   frozen : Bool := false
   wiped : Bool := false
   created : List (Nat × FS) := []     -- successful savepoints: id ↦ storage right after the creation
@@ -96,7 +97,7 @@ def afterAck (st : St) (r : Store × Option Published) : St :=
 
 def step (st : St) (line : List String) : St × String :=
   let (op, fed) := splitFeed line
-  let st' := { st with dumped := false }
+  let st' := { st with dumped := false, released := false }
   let live := !st.wiped
   match op with
   | ["put", _, _, _] | ["del", _, _] | ["put", _, _] =>
@@ -143,8 +144,8 @@ def step (st : St) (line : List String) : St × String :=
       ({ st' with fs := fs, dumped := true, atDump := some fs }, listing fs isWorkFile)
   | ["intact"] =>
       if !live then (st', "wiped") else
-      match st.atDump with
-      | none => (st', "nodump")
+      match (if st.released then st.atDump else none) with
+      | none => (st', "norelease")
       | some fs0 =>
         -- C14.savepoint_nonintrusive: publication writes only the job snapshot file and the savepoint directory
         if listing st.fs isWorkFile == listing fs0 isWorkFile then (st', "ok") else (st', "changed")
@@ -155,7 +156,7 @@ def step (st : St) (line : List String) : St × String :=
       | none => (st', "nothing")
       | some pub =>
         let r := publish lister st.fs (jobURI pub.1.id) pub
-        let st2 := { st' with fs := r.1, parked := st.parked.eraseIdx (natOr k) }
+        let st2 := { st' with fs := r.1, parked := st.parked.eraseIdx (natOr k), released := true }
         if !r.2 then (st2, s!"savepoint-error {pub.1.id}")
         else if pub.2 then ({ st2 with created := (pub.1.id, r.1) :: st.created }, s!"published {pub.1.id} savepoint")
         else (st2, s!"published {pub.1.id}")
